@@ -196,6 +196,30 @@ def check_class(ctx, u, cls, fs, kind):
             tc = [c for c in walk(body_of(f)) if c.get('kind') == 'CXXMemberCallExpr' and call_name(c) == 'touch_item']
             ok = len(tc) == 1 and any((ref_decl(n_) or {}).get('name') == 'touch' and pol for n_, pol in atoms(path_facts(tc[0])))
             ctx.check(ok, R, lab + '::change_size|touch-flag', f, 'recency refreshed only when touch=true', 'change_size ignores its touch flag')
+    # a move-to-front (unlink_item(x); link_item(x)) may be skipped only when x already is the head
+    for f in fs:
+        b_ = body_of(f)
+        if b_ is None or f.get('name') in ('unlink_item', 'link_item'):
+            continue
+        k_ = 0
+        for blk in [x for x in walk(b_) if x.get('kind') == 'CompoundStmt']:
+            st = [strip(y) for y in kids(blk)]
+            for j in range(len(st) - 1):
+                if st[j].get('kind') == 'CXXMemberCallExpr' and call_name(st[j]) == 'unlink_item' and st[j + 1].get('kind') == 'CXXMemberCallExpr' and call_name(st[j + 1]) == 'link_item' \
+                   and canon(call_args(st[j])[0]) == canon(call_args(st[j + 1])[0]):
+                    k_ += 1
+                    item = nf(call_args(st[j])[0])
+                    par = blk.get('_p')
+                    if par is None or par.get('kind') != 'IfStmt' or len(st) != 2:
+                        ctx.ok(R, '%s::%s|relink#%d-unconditional' % (lab, f.get('name'), k_), st[j], 'relink is not guarded by a dedicated shortcut')
+                        continue
+                    cond, then, els = if_parts(par)
+                    if then is not blk:
+                        continue
+                    c = nf(cond)
+                    okc = c in ('(this.head != %s)' % item, '(%s != this.head)' % item)
+                    ctx.check(okc, R, '%s::%s|relink#%d-shortcut' % (lab, f.get('name'), k_), par, 'move-to-front skipped only when the item already is the head',
+                              'the move-to-front of %s is skipped under `%s`, which is not "already the head": an entry can keep a stale position after being used' % (item, src_text(cond, 60)))
     # touch on the head is a no-op on the list only (guard `head != &i` wraps exactly unlink+link)
     for nm in ('touch', 'touch_item'):
         for f in byname.get(nm, []):
